@@ -47,6 +47,15 @@ def run_shard(sh):
                         cases.append({'op': 'readcomp', 'hex': text.encode('utf-8').hex(), 'encoding': 'utf-8', 'dlm': dlm, 'policy': policy, 'has_header': has_header, 'comment_prefix': comment,
                                       'also_slow_consumer': sh.get('slow', False)})
                         meta.append((text, text, 'utf-8', dlm, policy, has_header, comment))
+    elif sh['kind'] == 'medium':
+        from vf.checks import c12 as _c12
+        s_ = sh['text']
+        data = s_.encode('utf-8')
+        for policy, dlm in POLICIES:
+            for has_header in (False, True):
+                for comment in (None, '#'):
+                    cases.append({'op': 'readcuts', 'hex': data.hex(), 'encoding': 'utf-8', 'dlm': dlm, 'policy': policy, 'has_header': has_header, 'comment_prefix': comment, 'maxcuts': sh['maxcuts']})
+                    meta.append((s_, s_, 'utf-8', dlm, policy, has_header, comment))
     elif sh['kind'] == 'utf8':
         s = sh['sample']
         data = s.encode('utf-8')
@@ -63,7 +72,7 @@ def run_shard(sh):
         n = len(orig.encode('utf-8'))
         res.evaluations += out['executions'] + 2
         res.traces += out['executions'] + 2
-        res.states += 1 << n
+        res.states += (1 << n) if n <= 12 else out['executions'] + 1
         res.transitions += out['chunks'] + 1
         case = {'text': orig, 'encoding': enc, 'dlm': dlm, 'policy': policy, 'has_header': has_header, 'comment': comment}
         base = js_result_to_ref_shape(out['base'], has_header)
@@ -169,6 +178,9 @@ def main(tier, seed):
             shards.append({'kind': 'ascii', 'syms': s2, 'policy': pol, 'first': f1, 'minlen': 1, 'maxlen': 5 if T else 4, 'slow': True})
     for s in SAMPLES:
         shards.append({'kind': 'utf8', 'sample': s})
+    from vf.checks import c12 as _c12
+    for t in _c12.MEDIUM_TEXTS + ['é€,😀\r\n"ж\r\nж",x\r\n#é\r\nlast,€']:
+        shards.append({'kind': 'medium', 'text': t, 'maxcuts': 2})
     crits = [('2-byte char', 'é,x\n', 'quoted'), ('3-byte char', '€,x\n', 'quoted'), ('4-byte char', '\U0001F600,x\n', 'simple'), ('CRLF', 'p,q\r\nr,s\r\n', 'quoted'),
              ('open rfc field', '"m\nn",o\n', 'quoted_rfc'), ('CR then LF in rfc', '"m\r\nn",o\r\n', 'quoted_rfc'), ('BOM-like inside', 'x﻿,y\n', 'simple')]
     for c in crits:
